@@ -69,6 +69,13 @@ def case_inputs(rng, th):
 		ml = [float(d.mean if d.mean is not None else d.demand_distribution.mean()) for d in dsl]
 		sl = [float(d.standard_deviation if d.standard_deviation is not None else d.demand_distribution.std()) for d in dsl]
 		kw = dict(demand_source=src)
+	if kind == 'normal' and T >= 2 and rng.random() < .35:
+		# forward buying: purchase cost jumps after period 1 and holding is cheap, so the optimal first-period order-up-to level lies far
+		# above the initial truncation of the state space - the code must enlarge its grid and restart
+		h, hl = 0.125, [0.125] * T
+		cl = [1] + [rng.choice([4, 6])] * (T - 1); c = list(cl)
+		K, Kl = 0, [0] * T
+		kind = 'normal-forward-buying'
 	x0 = rng.choice([0, 2, 5])
 	args = dict(num_periods=T, holding_cost=h, stockout_cost=p, terminal_holding_cost=th_, terminal_stockout_cost=tp_, purchase_cost=c, fixed_cost=K,
 				discount_factor=g, initial_inventory_level=x0, **kw)
@@ -93,6 +100,14 @@ def run_case(rep, drv, rng, th):
 				 theorem=THEOREM, finding_id=None)
 		return
 	x_min, x_max = int(xr[0]), int(xr[-1]); n = x_max - x_min + 1
+	# the reported grid indexes the columns of both matrices
+	shape_bad = [t for t in range(1, T + 1) if len(cm[t]) != len(xr) or len(om[t]) != len(xr)]
+	if shape_bad or list(xr) != list(range(x_min, x_max + 1)):
+		rep.diff('finite_horizon_dp', 'x_range has %d entries (%s..%s) but the matrices have %s columns in periods %s' % (
+			len(xr), x_min, x_max, sorted({len(cm[t]) for t in range(1, T + 1)}), shape_bad), desc, oracle=True, theorem=THEOREM)
+		return
+	if len(xr) > (max(desc['mean']) + 4 * max(desc['sd'])) * 3 + 40:
+		rep.count('fh:grid-was-enlarged')
 	d_spread = 4
 	d_min = int(max(0, round(min(desc['mean']) - d_spread * max(desc['sd']))))
 	d_max = int(round(max(desc['mean']) + d_spread * max(desc['sd'])))
